@@ -21,6 +21,11 @@ pub struct SeqCase {
     /// the last frame) and must be rejected without disturbing the lock-step state
     #[serde(default)]
     pub bad: u8,
+    /// REQ only: bit k set = just before the k-th send call the connection the rotation is about
+    /// to choose starts failing its writes (EPIPE). A send that fails this way was not accepted:
+    /// no request is outstanding afterwards, and the next send goes to the next peer.
+    #[serde(default)]
+    pub dead: u8,
 }
 
 fn show_calls(c: &[bool]) -> String {
@@ -53,6 +58,10 @@ pub fn seq_outcome(c: &SeqCase) -> Outcome {
         o.class("rep-with-malformed-requests");
         o.nontrivial = true;
     }
+    if c.dead != 0 {
+        o.class("req-with-failing-sends");
+        o.nontrivial = true;
+    }
     let (r, panics) = capture_panics(|| {
         run_sim(async move {
             let c = c2;
@@ -77,7 +86,11 @@ pub fn seq_outcome(c: &SeqCase) -> Outcome {
             }
             // reference state machine
             let mut awaiting: Option<usize> = None; // REQ: outstanding request on peer; REP: current requester
-            let mut rr_next = 0usize;
+            // REQ rotation: ids are popped and pushed back; entries of removed peers are skipped
+            let mut rotation: std::collections::VecDeque<usize> = (0..c.peers).collect();
+            let mut registered = vec![true; c.peers];
+            let mut broken = vec![false; c.peers];
+            let mut sends_seen = 0usize;
             let mut k = 0usize; // message counter
             let mut supplied = 0usize;
             for (step, call) in c.calls.iter().enumerate() {
@@ -87,17 +100,38 @@ pub fn seq_outcome(c: &SeqCase) -> Outcome {
                     // ---- send
                     k += 1;
                     let msg: Frames = vec![format!("m-{}", k).into_bytes(), vec![], b"tail".to_vec()];
+                    let mut req_target: Option<usize> = None;
+                    if c.req && awaiting.is_none() {
+                        while let Some(p) = rotation.pop_front() {
+                            if registered[p] {
+                                rotation.push_back(p);
+                                req_target = Some(p);
+                                break;
+                            }
+                        }
+                        if (c.dead >> (sends_seen % 8)) & 1 == 1 {
+                            if let Some(t) = req_target {
+                                links[t].from_lib.break_writer(std::io::ErrorKind::BrokenPipe);
+                                broken[t] = true;
+                            }
+                        }
+                    }
+                    sends_seen += 1;
                     let a = sim.send(s, &msg);
                     let res = sim.run(a).await;
                     let grew = taps_grew(&links, &before);
-                    let legal = if c.req { awaiting.is_none() && c.peers > 0 } else { awaiting.is_some() };
+                    let legal = if c.req { awaiting.is_none() && req_target.is_some() } else { awaiting.is_some() };
                     match res {
                         Ok(Some(Out::Send(Ok(())))) => {
                             if !legal {
                                 fail!(f, format!("C08/{}/out-of-turn-send-accepted", who), "{}: send succeeded although {}", ctx_s, if c.req { "a request is already outstanding (or no peer)" } else { "no request has been received" });
                                 return f;
                             }
-                            let target = if c.req { rr_next % c.peers } else { awaiting.unwrap() };
+                            let target = if c.req { req_target.unwrap() } else { awaiting.unwrap() };
+                            if c.req && broken[target] {
+                                fail!(f, "C08/REQ/send-on-failed-connection-accepted", "{}: every write on connection {} fails, yet send returned Ok", ctx_s, target);
+                                return f;
+                            }
                             let mut want = vec![vec![]];
                             want.extend(msg.clone());
                             if grew != vec![target] {
@@ -110,11 +144,18 @@ pub fn seq_outcome(c: &SeqCase) -> Outcome {
                             }
                             if c.req {
                                 awaiting = Some(target);
-                                rr_next += 1;
                                 // auto-answering raw REP
                                 links[target].raw_send_now(&[vec![], format!("reply-{}", k).into_bytes()]);
                             } else {
                                 awaiting = None;
+                            }
+                        }
+                        Ok(Some(Out::Send(Err(_)))) if legal && c.req && broken[req_target.unwrap()] => {
+                            // the transport failed: nothing was accepted, no request is
+                            // outstanding, and the dead peer leaves the rotation
+                            registered[req_target.unwrap()] = false;
+                            if !grew.is_empty() {
+                                fail!(f, "C08/REQ/failed-send-wrote-bytes", "{}: connections {:?} grew", ctx_s, grew);
                             }
                         }
                         Ok(Some(Out::Send(Err(e)))) => {
@@ -534,13 +575,20 @@ pub fn run(ctx: &Ctx) -> (Report, PropertyMeta) {
         for code in 0..(1usize << len) {
             let calls: Vec<bool> = (0..len).map(|i| (code >> i) & 1 == 1).collect();
             for peers in 0..=2 {
-                cases.push(SeqCase { req: true, calls: calls.clone(), peers, bad: 0 });
-                cases.push(SeqCase { req: false, calls: calls.clone(), peers, bad: 0 });
+                cases.push(SeqCase { req: true, calls: calls.clone(), peers, bad: 0, dead: 0 });
+                cases.push(SeqCase { req: false, calls: calls.clone(), peers, bad: 0, dead: 0 });
+                // REQ with some sends hitting a connection that has just died
+                let sends = calls.iter().filter(|c| **c).count();
+                if peers > 0 && sends > 0 && len <= 6 {
+                    for dead in 1..(1u32 << sends.min(4)) {
+                        cases.push(SeqCase { req: true, calls: calls.clone(), peers, bad: 0, dead: dead as u8 });
+                    }
+                }
                 // REP with some malformed requests among the supplied ones
                 let recvs = calls.iter().filter(|c| !**c).count();
                 if peers > 0 && recvs > 0 && len <= 6 {
                     for bad in 1..(1u32 << recvs.min(5)) {
-                        cases.push(SeqCase { req: false, calls: calls.clone(), peers, bad: bad as u8 });
+                        cases.push(SeqCase { req: false, calls: calls.clone(), peers, bad: bad as u8, dead: 0 });
                     }
                 }
             }
@@ -592,12 +640,13 @@ pub fn run(ctx: &Ctx) -> (Report, PropertyMeta) {
     }
     health_abs(&mut report, "has-out-of-turn-call", 500);
     health_abs(&mut report, "rep-with-malformed-requests", 500);
+    health_abs(&mut report, "req-with-failing-sends", 500);
     health_abs(&mut report, "overlapping-requests", 500);
     health_abs(&mut report, "partial-writes", 300);
 
     let meta = PropertyMeta {
         level: "exploration",
-        rule: "(a) exhaustive call sequences over {send, recv} on REQ and REP with 0..2 peers (for REP also with every subset of the supplied requests malformed: delimiter last, which must be rejected or dropped without moving the state) run in lock-step with a reference state machine: an out-of-turn call must fail, hand the same message back (ReturnToSender), grow no connection's wire, and leave the machine's subsequent behaviour unchanged; an in-turn send must write exactly [empty]+message on exactly the right connection. (b) proptest histories with 1..5 concurrent requesters (library REQ sockets over harness pipes, or raw peers) against one echoing REP under generated scheduling, segmentation and partial writes: every client receives exactly the replies to its own tagged requests, in order, and each connection's wire carries only that client's replies. Non-trivial: (a) the sequence contains an out-of-turn call, (b) >= 2 clients with overlapping outstanding requests; distinct by case".into(),
+        rule: "(a) exhaustive call sequences over {send, recv} on REQ and REP with 0..2 peers (for REP also with every subset of the supplied requests malformed: delimiter last, which must be rejected or dropped without moving the state; for REQ also with every subset of the first four sends hitting a connection whose writes have just begun to fail: such a send is not accepted, so no request is outstanding after it, the next recv is out of turn and the next send goes to the next peer of the rotation) run in lock-step with a reference state machine: an out-of-turn call must fail, hand the same message back (ReturnToSender), grow no connection's wire, and leave the machine's subsequent behaviour unchanged; an in-turn send must write exactly [empty]+message on exactly the right connection. (b) proptest histories with 1..5 concurrent requesters (library REQ sockets over harness pipes, or raw peers) against one echoing REP under generated scheduling, segmentation and partial writes: every client receives exactly the replies to its own tagged requests, in order, and each connection's wire carries only that client's replies. Non-trivial: (a) the sequence contains an out-of-turn call, (b) >= 2 clients with overlapping outstanding requests; distinct by case".into(),
         assumptions: vec!["a second recv on a REP that already holds a request is not refused by the statement; the model lets it fetch the next request and makes the latest requester current".into()],
         exhaustive: false,
     };
